@@ -239,6 +239,11 @@ func (c *cluster) fairSuffix(maxRounds int) (msg string) {
 	if l != nil {
 		lid = l.id
 	}
+	if l == nil && stage == 0 {
+		if d := c.noElectableVoter(); d != "" {
+			return "C17: no electable voter: " + d
+		}
+	}
 	return fmt.Sprintf("C17: no progress after %d fair rounds: stuck in stage %d (0 no leader, 1 proposal not applied, 3 read not answered, 5 membership change not applied, 6 catch-up), leader %d",
 		maxRounds, stage, lid)
 }
@@ -255,4 +260,69 @@ func (c *cluster) summary() string {
 			r.vp.Committed(), r.vp.LastIndex(), r.sm.GetLastApplied(), r.stopped, vs, ns, ws, r.vp.PendingCC())
 	}
 	return out + fmt.Sprintf("inflight=%d", len(c.msgs))
+}
+
+// noElectableVoter diagnoses one specific reason for a shard without a leader:
+// by the election restriction no live full voting member can collect a quorum
+// of votes, because a live witness holds a log newer than that of every live
+// full voting member (the entry was acknowledged by the former leader and the
+// witness only, and the former leader is gone). It returns "" when any live
+// full voter could still win an election.
+func (c *cluster) noElectableVoter() string {
+	last := func(r *replica) (uint64, uint64) {
+		li := r.vp.LastIndex()
+		return r.vp.LogTerm(li), li
+	}
+	newer := func(a, b *replica) bool { // a's log is more up to date than b's
+		at, ai := last(a)
+		bt, bi := last(b)
+		return at > bt || (at == bt && ai > bi)
+	}
+	var fulls, wits []*replica
+	for _, r := range c.reps {
+		if !c.live(r) || r.vp.SelfRemoved() {
+			continue
+		}
+		switch r.kind {
+		case kVoter:
+			fulls = append(fulls, r)
+		case kWitness:
+			wits = append(wits, r)
+		}
+	}
+	for _, v := range fulls {
+		vs, _, ws := v.vp.Members()
+		in := map[uint64]bool{}
+		for _, id := range vs {
+			in[id] = true
+		}
+		for _, id := range ws {
+			in[id] = true
+		}
+		if !in[v.id] {
+			continue
+		}
+		votes := 0
+		for _, u := range append(append([]*replica{}, fulls...), wits...) {
+			if in[u.id] && !newer(u, v) {
+				votes++
+			}
+		}
+		if votes >= v.vp.Quorum() {
+			return ""
+		}
+	}
+	for _, w := range wits {
+		ahead := len(fulls) > 0
+		for _, v := range fulls {
+			if !newer(w, v) {
+				ahead = false
+			}
+		}
+		if ahead {
+			wt, wi := last(w)
+			return fmt.Sprintf("a live witness holds a newer log than every live full voting member, which therefore cannot win an election, and a witness never campaigns (witness %d last term %d index %d)", w.id, wt, wi)
+		}
+	}
+	return ""
 }
